@@ -5,6 +5,7 @@ import (
 	"sync"
 	"time"
 
+	"github.com/sdcio/data-server/pkg/verifhook"
 	log "github.com/sirupsen/logrus"
 )
 
@@ -40,12 +41,14 @@ func (t *TransactionCancelTimer) Start() error {
 		case <-timer.C:
 			// Timer fired, process TransactionCancel action
 			log.Infof("TransactionCancelTimer triggered")
+			verifhook.Point("timer.fired")
 			if t.fnc != nil {
 				t.fnc()
 			}
 		case <-t.done:
 			// Stop the timer
 			log.Infof("TransactionCancelTimer stopped")
+			verifhook.Point("timer.stopped")
 			t.done = nil
 		}
 	}()
